@@ -324,9 +324,10 @@ def apply(I, st, inst, node, nidx, callee, args, term, dty, line):
             if name == "next_back":
                 direction = "desc" if direction == "asc" else "asc"
             rng = st.env.get(p) if p is not None else None
+            if isinstance(rng, tuple) and rng and rng[0] == "iteradapt" and rng[1] == "rev" and rng[2]:
+                rng = rng[2][0]
+            # the abstract range value is kept (the yielded index is an opaque atom; iteration itself is not modelled)
             E("RANGE_NEXT", direction=direction, range=h(rng), path=p)
-            if p is not None:
-                I.havoc(st, p, site)
             return ("rangenext", site, direction, h(rng))
         E("USER", what="iter-" + name, target=canon_path(I, st, p) if p else h(args[0]), self_ty=sts, forwards=name)
         if p is not None:
